@@ -433,7 +433,6 @@ func (n *node) gossip(what string) (out string) {
 	return "ok"
 }
 
-
 // floodMsgs builds well-formed messages (they pass ValidateBasic; for consensus they are for a
 // height the node is not at, so the state machine just drops them) for the flood probe.
 func (n *node) floodMsgs(mix string, peerNo, count int) (chs []byte, msgs [][]byte) {
